@@ -1,16 +1,12 @@
 (* C11 — Formatting is idempotent.  Statements + `exact` + Print Assumptions only.
    format x := fmt t where parse x = PTree t. *)
-From Spok Require Import Base Lexer Parser Cst RoundTripL RoundTrip CstWf TrimProofs Layout FmtProofs.
+From Spok Require Import Base Lexer Parser Cst RoundTripL RoundTrip CstWf TrimProofs Layout FmtProofs ParserWf.
 
 (* The full statement: for EVERY input x that parses to t, format x parses (to some t') and format (format x) = format x. *)
-Definition C11_full_statement : Prop := forall s t, parse s = PTree t ->
+Theorem C11_format_idempotent : forall s t, parse s = PTree t ->
   exists t', parse (fmt t) = PTree t' /\ fmt t' = fmt t.
-
-(* PARTIAL: proved for the trees whose canonical layout is admissible (tree_wf); missing: every parser output satisfies it. *)
-Theorem C11_format_idempotent_partial : forall s t, parse s = PTree t -> tree_wf t ->
-  exists t', parse (fmt t) = PTree t' /\ fmt t' = fmt t.
-Proof. exact format_idempotent. Qed.
-Print Assumptions C11_format_idempotent_partial.
+Proof. exact format_idempotent_all. Qed.
+Print Assumptions C11_format_idempotent.
 
 (* the two ingredients: printing the normalised tree prints the same text (for ALL trees) ... *)
 Theorem C11_fmt_canon : forall t, fmt (canon t) = fmt t.
